@@ -166,3 +166,46 @@ Proof. exact ddt_hist_kin_ctor. Qed.
 Theorem C06_ctor_table : Forall ctor_ok Ctor.ALLTYPES.
 Proof. exact ctor_table. Qed.
 Print Assumptions C06_ctor_table.
+
+(* ---- magnification and time-delay + magnification likelihoods (2 x 2, symbolic; numpy.linalg returns (P, L)) ---- *)
+Require Import C06.Mag C06.TDMag.
+(* Mag: source amplitude A = magnitude2cps(mu, zero point) (arbitrary function); model_i = A mu_i; the matrix handed to numpy.linalg.inv is
+   C_ij + Q_ij A^2; value = -d^T P d / 2 - (2 ln 2pi + L)/2 with d_i = a_i - A mu_i *)
+Theorem C06_mag : forall (m2c : R -> R -> R) a0 a1 c00 c01 c10 c11 mu0 mu1 q00 q01 q10 q11 zp p00 p01 p10 p11 L mu rg cu,
+  let G := Gm m2c p00 p01 p10 p11 L in
+  let o := mag_obj a0 a1 c00 c01 c10 c11 mu0 mu1 q00 q01 q10 q11 zp in
+  let A := m2c mu zp in
+  let d0 := a0 - A * mu0 in let d1 := a1 - A * mu1 in
+  let cov := Mag.mat [[c00 + q00 * (A * A); c01 + q01 * (A * A)]; [c10 + q10 * (A * A); c11 + q11 * (A * A)]] in
+  yields G 80 (CFun src_MagnificationLikelihood_scale_model) (Some o) [Mag.num mu] [] rg cu (VTuple [Mag.vec [A * mu0; A * mu1]; cov]) cu []
+  /\ yields G 120 (CFun src_MagnificationLikelihood_log_likelihood) (Some o) [Mag.num mu] [] rg cu
+       (Mag.num (- (d0 * (p00 * d0 + p01 * d1) + d1 * (p10 * d0 + p11 * d1)) / 2 - 1 / 2 * (2 * ln (2 * PI) + L))) cu [("inv", [cov])].
+Proof. intros. split; [apply scale_model_n2 | apply mag_loglike_n2]. Qed.
+Print Assumptions C06_mag.
+
+(* TDMag (fluxes): scale s = (Ddt * unit, A); model = s .* (Fermat difference, magnification); total covariance D_ij + s_i s_j Q_ji (the
+   code multiplies the TRANSPOSED model covariance: identical for a symmetric matrix); value = the multivariate-normal form of P, L.
+   TDMagMagnitude: the delay is scaled by Ddt * unit, the magnitude entry is magnification-in-magnitudes + source magnitude, only the delay
+   row/column of the model covariance is scaled *)
+Theorem C06_tdmag : forall (m2c : R -> R -> R) t0 x0 f0 g0 u zp d00 d01 d10 d11 q00 q01 q10 q11 p00 p01 p10 p11 L ddt mu rg cu,
+  let G := Gtd m2c p00 p01 p10 p11 L in
+  let o := td_obj t0 x0 f0 g0 u zp d00 d01 d10 d11 q00 q01 q10 q11 "TDMagLikelihood" in
+  let s0 := ddt * u * 1 in let s1 := m2c mu zp * 1 in
+  let e0 := t0 - s0 * f0 in let e1 := x0 - s1 * g0 in
+  let cov := Mag.mat [[d00 + s0 * (q00 * s0); d01 + s1 * (q10 * s0)]; [d10 + s0 * (q01 * s1); d11 + s1 * (q11 * s1)]] in
+  yields G 100 (CFun src_TDMagLikelihood_model_cov) (Some o) [Mag.num ddt; Mag.num mu] [] rg cu (VTuple [Mag.vec [s0 * f0; s1 * g0]; cov]) cu []
+  /\ yields G 140 (CFun src_TDMagLikelihood_log_likelihood) (Some o) [Mag.num ddt; Mag.num mu] [] rg cu
+       (Mag.num (- (e0 * (p00 * e0 + p01 * e1) + e1 * (p10 * e0 + p11 * e1)) / 2 - 1 / 2 * (2 * ln (2 * PI) + L))) cu [("inv", [cov])].
+Proof. intros. split; [apply tdmag_model_cov | apply tdmag_loglike]. Qed.
+Print Assumptions C06_tdmag.
+Theorem C06_tdmag_magnitude : forall (m2c : R -> R -> R) t0 x0 f0 g0 u zp d00 d01 d10 d11 q00 q01 q10 q11 p00 p01 p10 p11 L ddt mu rg cu,
+  let G := Gtd m2c p00 p01 p10 p11 L in
+  let o := td_obj t0 x0 f0 g0 u zp d00 d01 d10 d11 q00 q01 q10 q11 "TDMagMagnitudeLikelihood" in
+  let s0 := ddt * u * 1 in
+  let e0 := t0 - ddt * u * f0 in let e1 := x0 - (g0 + mu) in
+  let cov := Mag.mat [[d00 + s0 * (q00 * s0); d01 + 1 * (q10 * s0)]; [d10 + s0 * (q01 * 1); d11 + 1 * (q11 * 1)]] in
+  yields G 100 (CFun src_TDMagMagnitudeLikelihood_model_cov) (Some o) [Mag.num ddt; Mag.num mu] [] rg cu (VTuple [Mag.vec [ddt * u * f0; g0 + mu]; cov]) cu []
+  /\ yields G 140 (CFun src_TDMagMagnitudeLikelihood_log_likelihood) (Some o) [Mag.num ddt; Mag.num mu] [] rg cu
+       (Mag.num (- (e0 * (p00 * e0 + p01 * e1) + e1 * (p10 * e0 + p11 * e1)) / 2 - 1 / 2 * (2 * ln (2 * PI) + L))) cu [("inv", [cov])].
+Proof. intros. split; [apply tdmagmag_model_cov | apply tdmagmag_loglike]. Qed.
+Print Assumptions C06_tdmag_magnitude.
